@@ -37,6 +37,7 @@ pub fn registry() -> Vec<(&'static str, fn(&mut nd::TapeNd))> {
     v.extend(fak::registry3());
 
     v.extend(fqk::registry2());
+    v.extend(fqk::registry3());
     v.extend(libk::registry());
     v.extend(c12::registry());
     v.extend(misc::registry());
